@@ -1,6 +1,111 @@
-(* C17: theorem statements are added when the corresponding Proofs file is merged. *)
+(* C17 naive scheduler: whole-pool FIFO without retries or preemption (and the starter template).
+   Statements only; every proof is [exact <lemma of Proofs/NaiveFacts.v>]. Per scheduling round of the
+   model of eudoxia/scheduler/naive.py / the `eudoxia init` template ([naive_step C starter]), from every
+   queue, executor state, result list and arrival list. [asteps S w w']: w' is reached from w by accepted
+   "-> Assigned" requests only (what a round does to operator states). *)
 From Coq Require Import List ZArith QArith.
-From Eudoxia Require Import Model.Sched.
-Example C17_placeholder : ss_queue init_sstate = nil.
-Proof. reflexivity. Qed.
-Print Assumptions C17_placeholder.
+Import ListNotations.
+From Eudoxia Require Import Model.Types Model.Dag Model.Lifecycle Model.Container Model.Pool Model.Executor
+  Model.Sched Proofs.ExecLifeFacts Proofs.NaiveFacts.
+Close Scope Q_scope.
+Close Scope Z_scope.
+
+Theorem C17_no_suspend : forall C starter s e results newp s' w' susps asgs,
+  naive_step C starter s e results newp = Ok (s', w', susps, asgs) -> susps = [].
+Proof. exact naive_no_suspend. Qed.
+Print Assumptions C17_no_suspend.
+
+(* at most one container per pool per round, and it gets everything that pool has free at that moment:
+   the assignments correspond, in order, to a sub-list of the pools, each asking exactly the pool's free
+   CPU and RAM (both positive) *)
+Theorem C17_one_per_pool_all_free : forall C starter s e results newp s' w' susps asgs,
+  naive_step C starter s e results newp = Ok (s', w', susps, asgs) ->
+  exists ps, sublist ps (e_pools e) /\
+    Forall2 (fun p a => a_pool a = Z.of_nat (p_id p) /\ a_cpu a = p_avail_cpu p /\ a_ram a = p_avail_ram p /\
+                        (0 < p_avail_cpu p)%Z /\ (0 < p_avail_ram p)%Q) ps asgs.
+Proof. exact naive_one_per_pool_all_free. Qed.
+Print Assumptions C17_one_per_pool_all_free.
+
+Theorem C17_at_most_one_per_pool : forall C starter s e results newp s' w' susps asgs,
+  naive_step C starter s e results newp = Ok (s', w', susps, asgs) ->
+  NoDup (map p_id (e_pools e)) -> NoDup (map a_pool asgs).
+Proof. exact naive_at_most_one_per_pool. Qed.
+Print Assumptions C17_at_most_one_per_pool.
+
+(* with multi-operator containers disabled (and always for the starter template) each container holds
+   exactly one operator, assignable, with all parents completed *)
+Theorem C17_single_ready_operator : forall C starter s e results newp s' w' susps asgs,
+  starter = true \/ cf_multi C = false ->
+  naive_step C starter s e results newp = Ok (s', w', susps, asgs) ->
+  forall a, In a asgs -> exists k wk o rest,
+    In k (ss_queue s ++ newp) /\ asteps (S_of C) (e_world e) wk /\ asteps (S_of C) wk w' /\
+    a_ops a = [o] /\ get_ops (S_of C) wk k assignable true = o :: rest /\
+    In o (pd_order (pipe_of (S_of C) k)) /\
+    assignable (st_of wk o) = true /\ parents_complete (S_of C) wk o = true.
+Proof. exact naive_ops_single. Qed.
+Print Assumptions C17_single_ready_operator.
+
+(* never assigns work of a pipeline once one of its operators has failed; every assigned operator was
+   PENDING (no retries). [hist_ok]: state_counts is the histogram of operator_states (an invariant: it is
+   re-established for the world after the round) *)
+Theorem C17_never_after_failure : forall C starter s e results newp s' w' susps asgs,
+  static_ok (S_of C) -> hist_ok (S_of C) (e_world e) ->
+  naive_step C starter s e results newp = Ok (s', w', susps, asgs) ->
+  hist_ok (S_of C) w' /\
+  (forall a o, In a asgs -> In o (a_ops a) ->
+     st_of (e_world e) o = Pending /\
+     forall o', In o' (pd_order (pipe_of (S_of C) (op_pipe (S_of C) o))) ->
+                st_of (e_world e) o' <> Failed) /\
+  (forall k o, In o (pd_order (pipe_of (S_of C) k)) -> st_of (e_world e) o = Failed ->
+     st_of w' o = Failed /\
+     forall a o', In a asgs -> In o' (a_ops a) -> op_pipe (S_of C) o' <> k).
+Proof. exact naive_never_retries. Qed.
+Print Assumptions C17_never_after_failure.
+
+(* [static_ok] holds for every workload of well-formed DAG pipelines *)
+Theorem C17_static_ok : forall l, dags_wf l -> static_ok (mk_static l).
+Proof. exact static_ok_mk_static. Qed.
+Print Assumptions C17_static_ok.
+
+(* first containers in arrival order: a never-served ("fresh") pipeline queued before a pipeline that is
+   served in this round is served too, earlier; a fresh pipeline that is not served stays in the unscanned
+   part of the queue, so the relative order of never-served pipelines is the same after every round *)
+Theorem C17_fifo_first_containers : forall C starter s e results newp s' w' susps asgs,
+  static_ok (S_of C) -> hist_ok (S_of C) (e_world e) ->
+  NoDup (ss_queue s ++ newp) ->
+  (forall k, In k (ss_queue s ++ newp) -> has_start C (single_of C starter) k) ->
+  naive_step C starter s e results newp = Ok (s', w', susps, asgs) ->
+  (exists served : list nat,
+    length served = length asgs /\
+    Forall2 (fun k a => a_prio a = prio_of_pipe C k /\
+                        exists wk, asteps (S_of C) (e_world e) wk /\
+                                   a_ops a = nv_ops C (single_of C starter) wk k) served asgs /\
+    (forall l1 k1 l2 k2, ss_queue s ++ newp = l1 ++ k1 :: l2 -> In k2 l2 ->
+       fresh C (e_world e) k1 -> In k2 served ->
+       exists s1 s2, served = s1 ++ k1 :: s2 /\ In k2 s2) /\
+    (forall k, In k (ss_queue s ++ newp) -> fresh C (e_world e) k -> ~ In k served ->
+       fresh C w' k /\
+       exists scanned rest requeued,
+         ss_queue s ++ newp = scanned ++ rest /\ ss_queue s' = rest ++ requeued /\ In k rest)) /\
+  filter (freshb C w') (ss_queue s') = filter (freshb C w') (ss_queue s ++ newp).
+Proof. exact naive_fifo_first_wf. Qed.
+Print Assumptions C17_fifo_first_containers.
+
+(* nothing to decide, nothing decided *)
+Theorem C17_early_return : forall C starter s e,
+  naive_step C starter s e [] [] = Ok (s, e_world e, [], []).
+Proof. exact naive_early_return. Qed.
+Print Assumptions C17_early_return.
+
+(* non-vacuity: two pools, three pipelines, single-operator mode: pipelines 0 and 1 get the two pools *)
+Example C17_witness :
+  match naive_step (NaiveExamples.Cx false) false init_sstate NaiveExamples.ex [] [0; 1; 2] with
+  | Ok (s', w', susps, asgs) =>
+      ss_queue s' = [2; 0; 1] /\ susps = [] /\
+      map a_ops asgs = [[0]; [2]] /\ map a_pool asgs = [0%Z; 1%Z] /\
+      map a_cpu asgs = [4%Z; 4%Z] /\ map a_ram asgs = [8%Q; 8%Q] /\
+      map a_prio asgs = [Query; Batch] /\
+      map (st_of w') [0; 1; 2; 3; 4] = [Assigned; Pending; Assigned; Pending; Pending]
+  | Err _ => False
+  end.
+Proof. exact NaiveExamples.ex_naive_single. Qed.
